@@ -754,7 +754,9 @@ def run(ctx):
             ctx.mismatch(name.split(':')[0] + ':kind', 'output kind of the term (measure_by_id %d %d: [from the syntax, from the table kind_by_id]) vs kind of the '
                          'implementation\'s output (0 scalar, 1 per-node vector, 2 per-pair matrix)' % (mid, k), case, r, want)
     # ------------------------------------------------------------ programs regenerated from the Python source
-    gen_correspondence(ctx, bct, cg)
+    # networks with self-connections too (the masks of 366dab6 act only there): generated program vs implementation only - the
+    # hand-written terms are specifications on loop-free networks
+    gen_correspondence(ctx, bct, cg + [g for g in graphs[n_corr_pool:] if g['name'].endswith('+loops') and 2 <= g['n'] <= 7][:ctx.scale(2, 12)])
 
 
 def shape_kind(shape, n):
@@ -826,7 +828,7 @@ def gen_correspondence(ctx, bct, cg):
                         Af = A.astype(float)
                         lines.append('g %d %s %s %s' % (idx, enc_mat(Af.tolist(), enc_q), enc_list([], enc_q), enc_list(kq, enc_q)))
                         pend.append(('impl', t, w, case, prim))
-                        if hand is not None:
+                        if hand is not None and not g['name'].endswith('+loops'):
                             lines.append(enc_case(hand[0], hand[1], Af, (), kq))
                             pend.append(('hand', t, w, case, prim))
     gk = {}
